@@ -724,6 +724,16 @@ func (env *Env) call(x *Expr) Val {
 			sfail("addr(): field %s not found directly", ax.Name)
 		}
 		return Val{T: e.fa(e.structKey(p.Elem()), f.Name(), base.T), Ty: types.NewPointer(f.Type())}
+	case "rawat":
+		// element at an absolute position of the backing array of slice b (position-based specs avoid offset arithmetic in triggers)
+		a := env.tr(x.Args[0])
+		p := env.tr(x.Args[1])
+		sl, ok := a.Ty.Underlying().(*types.Slice)
+		if !ok {
+			sfail("rawat of non-slice")
+		}
+		c := e.elemComp(sl.Elem())
+		return Val{T: fmt.Sprintf("(select (select %s (s_arr %s)) %s)", e.get(env.st, c), a.T, p.T), Ty: sl.Elem()}
 	case "bytesval":
 		// abstract value of the byte string held by a slice: a function of the contents, offset and length
 		a := env.tr(x.Args[0])
